@@ -83,7 +83,7 @@ impl Prop for C11 {
         vec![]
     }
     fn cases(&self, ctx: &Ctx) -> u64 {
-        ctx.tier.pick(1500, 40_000)
+        ctx.tier.pick(20_000, 200_000)
     }
     fn rule(&self) -> &'static str {
         "well-formed inputs (seeds, grammar programs) x width pairs W1 < W2 chosen from observations: W2 sampled in 10..200 and the default, W1 = widest line of F_W2, that minus 1, and random smaller widths, x other settings; oracles: (a) widest(F_W2) <= W1 implies F_W1 == F_W2; (b) lines(F_W2) <= lines(F_W1); (c) F_W1 fits W1 implies F_W2 fits W2. Non-trivial: F_W1 != F_W2 or W1 within 2 of the widest line of F_W2; distinct by (input, W1, W2, configuration)."
